@@ -480,6 +480,21 @@ Definition has_default (d : option details) (default : option json) : pstate :=
   | _, Some v => PDefault v
   end.
 
+(* the value serde's plain `#[serde(default)]` produces for the member's Rust type, as has_default recognises it:
+   EXACT tests -- null, [], {}, false, the number zero (`n.as_u64() == Some(0)` / `n.as_f64() == Some(0.0)`), "" --
+   and only for Option / Unit / Vec / Map / bool / integers / String; floats never *)
+Definition intrinsic_default (d : details) (v : json) : bool :=
+  match d, v with
+  | DOption _, JNull | DUnit, JNull => true
+  | DVec _, JArr [] => true
+  | DMap _ _, JObj [] => true
+  | DBoolean, JBool false => true
+  | DInteger _, JInt z => Z.eqb z 0
+  | DInteger _, JFlt q => Z.eqb (Qnum q) 0
+  | DString, JStr [] => true
+  | _, _ => false
+  end.
+
 (* shapes the IR fixes by itself: a value of the wrong JSON type / arity for the type kind *)
 Definition shape_mismatch (d : details) (v : json) : bool :=
   match d, v with
@@ -512,6 +527,12 @@ Definition show_kind (k : kind) : string :=
   | KGeneric GI64 => "Generic(I64)"
   | KGeneric GU64 => "Generic(U64)"
   | KGeneric GNZU64 => "Generic(NZU64)"
+  end.
+Definition show_pstate (s : pstate) : string :=
+  match s with
+  | PRequired => "required"
+  | POptional => "optional"
+  | PDefault v => "default:" ++ show_json v
   end.
 Definition show_vres (r : res kind) : string :=
   match r with
